@@ -9,6 +9,7 @@
 // <files> = the property files of the case, `name=hex(content)` joined by commas: the bytes are written verbatim,
 // the model parses them itself (Model/ConfigDecode.v prop_of_files).
 //
+//	typed <schema> <mut> <path> <oracle> <env> <files> <tree>            see typed.go
 //	app  <iface> <name> <mut> <path> <oracle> <env> <files> <section>   see applied.go
 //	hdr  <n> <hex,hex,...>                                     util.DecodeHeader on every line + util.DecodeHTTPConfigHeaders on the list
 //	prop <hex content> <hex key>                                the content written to a file, confutil.PropertyTagResolver("file#key")
@@ -472,6 +473,15 @@ func run(cases []string) []string {
 			touchLiteral(f[3])
 			res = decodeComp(reg, string(vh.UnHex(f[1])), string(vh.UnHex(f[2])), tree)
 			undo()
+		case f[0] == "typed" && len(f) == 8:
+			tree, err := s.ParseToken(f[7])
+			if err != nil {
+				res = "badcase"
+				break
+			}
+			undo := setupEnv(f[5], f[6])
+			res = decodeTyped(f[1], tree)
+			undo()
 		case f[0] == "app" && len(f) == 9:
 			tree, err := s.ParseToken(f[8])
 			if err != nil {
@@ -917,8 +927,25 @@ func outOfRange(n *s.Node, validate string) []rangeVal {
 		case "max-time":
 			bad(s.Str("10000h"))
 			good(s.Str(param))
+			if d, err := time.ParseDuration(param); err == nil {
+				bad(s.Int(int64(d) + 1))
+				good(s.Int(int64(d)))
+				good(s.Int(int64(d) - 1))
+			}
 		case "min-size":
 			bad(s.Int(0))
+			var sz datasize.ByteSize
+			if sz.UnmarshalText([]byte(param)) == nil && sz > 0 {
+				bad(s.Int(int64(sz) - 1))
+				good(s.Int(int64(sz)))
+			}
+		case "max-size":
+			var sz datasize.ByteSize
+			if sz.UnmarshalText([]byte(param)) == nil {
+				bad(s.Int(int64(sz) + 1))
+				good(s.Int(int64(sz)))
+				bad(s.Str("1PB"))
+			}
 		case "required":
 			switch n.Scalar {
 			case "string":
@@ -1344,6 +1371,10 @@ func gen(r *vh.Rand, tier string) []string {
 	prepareFs()
 	reg := s.NewReg()
 	theReg = reg
+	// vh.NewRand(seed) and vh.NewRand(seed+1) are the same splitmix sequence one draw apart, and the enumerated part
+	// below consumes a seed-dependent number of draws: the PRNG-heavy kinds (app, typed) get a generator of their own,
+	// seeded by the first draw (which does differ from seed to seed)
+	own := vh.NewRand(r.U64())
 	rnd = r
 	bigFileDone = map[string]bool{}
 	defaultStrings = reg.DefaultStrings()
@@ -1540,7 +1571,9 @@ func gen(r *vh.Rand, tier string) []string {
 	}
 	out = append(out, genDirect(r, thorough)...)
 	// D. the option applied to the component: sections decoded through the plugin hook, products searched for what they hold
-	genApp(reg, r, thorough, &out)
+	genApp(reg, own, thorough, &out)
+	// E. config struct types drawn by the PRNG
+	genTyped(reg, own, thorough, &out)
 	return out
 }
 
